@@ -2,7 +2,7 @@
 
 Unit: Operator::eval(FunctionIdentifier{name}, [arg], EmptyContextWithBuiltinFunctions) -> builtin_function(name) -> closure,
 all from MIR, for each of the builtin names and each argument shape up to arity 3 with every payload a solver variable."""
-import sys, os, time, random, itertools
+import sys, os, time, random, itertools, zlib
 import z3
 sys.path.insert(0, os.path.dirname(os.path.dirname(os.path.abspath(__file__))))
 import frontend, checklib, replay, models
@@ -565,6 +565,23 @@ def replay_ce(ce, c01=False):
     return ('reproduced' if bad else 'not_reproduced'), details
 
 
+DEEP_BUILTINS = ['contains', 'contains_any', 'len', 'str::from', 'typeof', 'if', 'min', 'max']
+
+
+def deep_shapes(tier):
+    """pairs of tuples whose elements include nested tuples / empty values (haystack / needles of contains*, nested rendering of str::from)"""
+    el = ['I', 'S1', 'T0', 'E'] if tier == 'quick' else ['I', 'F', 'S1', 'B', 'T0', 'T1', 'E']
+    out = []
+    for a in el:
+        for b in el:
+            out.append('T[T[%s,%s],%s]' % (a, b, a))
+            for c_ in el:
+                out.append('T[T[%s,%s],T[%s]]' % (a, b, c_))
+                for d in (el if tier != 'quick' else ['I', 'T0']):
+                    out.append('T[T[%s,%s],T[%s,%s]]' % (a, b, c_, d))
+    return out
+
+
 def make_units(tier, seed, mode):
     timeout_ms = 60000 if tier == 'quick' else 600000
     cvc5_rate = 0.005 if tier == 'quick' else 0.05
@@ -574,10 +591,11 @@ def make_units(tier, seed, mode):
     for ofc in (True, False):
         frontend.load(overflow_checks=ofc)
         for name in names:
-            random.Random(hash((seed, name)) & 0xffff).shuffle(shapes)
+            mine = list(shapes) + (deep_shapes(tier) if name in DEEP_BUILTINS else [])
+            random.Random(zlib.crc32(name.encode()) ^ seed).shuffle(mine)
             k = 24
-            for i in range(0, len(shapes), k):
-                units.append((name, list(shapes[i:i + k]), ofc, timeout_ms, cvc5_rate, seed, mode))
+            for i in range(0, len(mine), k):
+                units.append((name, list(mine[i:i + k]), ofc, timeout_ms, cvc5_rate, seed, mode))
     random.Random(seed).shuffle(units)
     return units, shapes, timeout_ms
 
